@@ -3,7 +3,8 @@ R1 all primary instruments pass n_steps = ceil(time_horizon/dt)+1, dt=self.dt, n
 their generator; R2 BaseDerivative.simulate passes maturity as horizon to every underlier and every derivative class uses it;
 R3 ceil/floor of an unguarded float quotient; R4 time_to_maturity(i) == (T-1-i)*dt in both branches.
 Added after the seeded-defect rounds: R5 the time grid is not memoised; Python-level counts (ceil(maturity/dt)) are not the grid length; concrete derivative classes do not replace time_to_maturity.
-Third round: R1i initial-state forwarding; R7 underlier registry and re-simulation histories; R8 time-dependent coefficients are evaluated at i*dt; int()/floor-division are rounding hazards."""
+Third round: R1i initial-state forwarding; R7 underlier registry and re-simulation histories; R8 time-dependent coefficients are evaluated at i*dt; int()/floor-division are rounding hazards.
+Rounds 4-5: R4p the time grid is computed in the dtype of the prices."""
 import ast
 
 import sympy as sp
